@@ -30,7 +30,8 @@ MANIFEST = {
             "inputs, unbounded). (2) C01_program: the registration program REGENERATED from acelyzer.py on every run, with "
             "abstract stage behaviours (limiter+event filter, barrier, Prep removal, --drop_globals, -O drop, -F, holding "
             "stages, all others pass), satisfies those laws, hence for every valuation of the guard atoms, every profile, "
-            "every option value and every input stream: exported uid count + recorded documented drops = input count. "
+            "every option value and every input stream: exported uid count + recorded documented drops = input count, and "
+            "every recorded drop satisfies its stage's documented predicate on an input event (C01_drops_documented). "
             "Partial: the abstract behaviour table (which real stage is of which kind) is validated against the real "
             "callbacks on every run (per-stage uid account of the real pipeline), not derived from their source; that the "
             "recorded drops are exactly the documented predicates is checked by the tie and the oracle (and is the "
@@ -47,7 +48,7 @@ MANIFEST = {
 }
 PROP_FILE = "props/C01.v"
 MODEL_TARGETS = ["theories/C01Model.vo"]
-THEOREMS = ["C01_mechanics", "C01_nothing_withheld", "C01_program"]
+THEOREMS = ["C01_mechanics", "C01_nothing_withheld", "C01_program", "C01_drops_documented"]
 ALLOWED_AXIOMS = []
 TRUSTED = [
     "abstract stage kinds of C01Model.v (validated in vivo by the per-stage uid account, not proved from the stage sources)",
